@@ -17,6 +17,122 @@ def gen_strings(alpha, maxlen):
             yield "".join(t)
 
 
+def symlink_level(ctx, rng, viol):
+    """A real directory tree with symlinked directories: every spelling of one file, from every working
+    directory, must give the same database key (relpath to the project base); model and implementation are also
+    compared, with the OS canonicalisation fed to the model as a parameter."""
+    from proj import Project
+    pr = Project()
+    stats = dict(spellings=0, cwds=0, files=0)
+    try:
+        for d in ("sub/deep", "sub/other", "lib", "lib2"):
+            os.makedirs(pr.path(d))
+        os.symlink("sub", pr.path("lnk"))
+        os.symlink("../lib", pr.path("sub/up"))
+        os.symlink(pr.path("sub/deep"), pr.path("abs"))
+        files = ["sub/deep/out", "lib/x.o", "lib2/out", "top", "sub/other/z"]
+        for f in files:
+            pr.write(f, "x")
+        base = pr.root
+        alias = {"sub/deep/out": ["sub/deep/out", "./sub//deep/out", "lnk/deep/out", "sub/../lnk/deep/out", "abs/out", "sub/other/../deep/out", "lnk/up/../sub/deep/out", "sub/up/../lnk/deep/./out"],
+                 "lib/x.o": ["lib/x.o", "sub/up/x.o", "lnk/up/x.o", "lib2/../lib/x.o", "./lib/./x.o"],
+                 "lib2/out": ["lib2/out", "lib/../lib2/out", "sub/up/../lib2/out"],
+                 "top": ["top", "./top", "sub/../top", "lnk/../top", "lib/../top"],
+                 "sub/other/z": ["sub/other/z", "lnk/other/z", "abs/../other/z"]}
+        cwds = ["", "sub", "sub/deep", "lib", "lnk", "lnk/deep", "abs"]
+        stats["cwds"] = len(cwds)
+        for f, sps in alias.items():
+            stats["files"] += 1
+            want = f
+            for cwd in cwds:
+                cwdp = os.path.join(base, cwd) if cwd else base
+                reqs, meta = [], []
+                for sp in sps:
+                    for form in ("abs", "rel"):
+                        if form == "abs":
+                            t = os.path.join(base, sp)
+                        else:
+                            # a relative spelling valid from this cwd (lexically from the real cwd)
+                            t = os.path.relpath(os.path.join(base, sp), os.path.realpath(cwdp))
+                            if os.path.realpath(os.path.join(cwdp, os.path.dirname(t) or ".")) != os.path.realpath(os.path.dirname(os.path.join(base, sp)) or base):
+                                continue
+                        reqs.append("relpath-real %s %s" % (hx(t), hx(base)))
+                        meta.append((t, form))
+                got = run_lines(RH, reqs, cwd=cwdp)
+                stats["spellings"] += len(reqs)
+                for (t, form), g in zip(meta, got):
+                    key = unhx(g).decode() if not g.startswith("err") else g
+                    if key != want:
+                        p = write_replay("C15", "symlink", dict(kind="impl-monitor", clause="every spelling denotes one database record", file=f, spelling=t, cwd=cwd or ".", key=key, expected=want,
+                                                                tree="sub/deep sub/other lib lib2; lnk->sub, sub/up->../lib, abs-><root>/sub/deep"))
+                        viol.append(Violation("C15", p, "spelling %r (cwd %s) of %s gets database key %r, expected %r" % (t, cwd or ".", f, key, want)))
+                        return stats
+                # model vs implementation with the OS's canonicalisation as parameter
+                mreqs = []
+                for (t, form) in meta:
+                    cw = os.path.realpath(cwdp)
+                    tabs = t if t.startswith("/") else (cw + "/" + t)
+                    dn = tabs[:tabs.rfind("/") + 1]
+                    ct = os.path.realpath(dn) if os.path.exists(dn) else None
+                    bdn = base[:base.rfind("/") + 1]
+                    cb = os.path.realpath(bdn) if os.path.exists(bdn) else None
+                    mreqs.append("relpath-full %s %s %s %s %s" % (hx(cw), hx(t), hx(base), hx(ct) if ct else "!", hx(cb) if cb else "!"))
+                mans = run_lines(MODEL, mreqs)
+                for (t, form), g, m, q in zip(meta, got, mans, mreqs):
+                    if g != m:
+                        p = write_replay("C15", "symlink-corr", dict(kind="model-vs-impl", layer="Paths.relpath", request=q, spelling=t, cwd=cwd or ".", model=m, impl=g))
+                        viol.append(Violation("C15", p, "relpath(%r) from %s: model %r, implementation %r" % (t, cwd or ".", unhx(m).decode() if m != "bad-op" else m, unhx(g).decode()), no_input=True))
+                        return stats
+    finally:
+        pr.destroy()
+    return stats
+
+
+def process_level(ctx, rng, viol):
+    """Pairs of spellings of one target on one command line, at -j1 and -j2: one record, one lock, one build."""
+    import sqlite3
+    from proj import Project
+    stats = dict(commands=0)
+    sps = ["sub/deep/out", "./sub//deep/out", "lnk/deep/out", "sub/../lnk/deep/out", "@ROOT@/lnk/deep/out", "sub/other/../deep/out"]
+    pairs = [(a, b) for i, a in enumerate(sps) for b in sps[i + 1:]]
+    if ctx["tier"] != "thorough":
+        pairs = rng.sample(pairs, 5)
+    for a, b in pairs:
+        for argv0, j in (("redo-ifchange", None), ("redo", "-j2")):
+            pr = Project()
+            try:
+                os.makedirs(pr.path("sub/deep"))
+                os.makedirs(pr.path("sub/other"))
+                os.symlink("sub", pr.path("lnk"))
+                pr.write("sub/deep/out.do", 'echo run >>"$VERIF_COUNT"\nsleep 0.15\necho built\n')
+                cnt = pr.path(".count")
+                argv = [argv0] + ([j] if j else []) + [a.replace("@ROOT@", pr.root), b.replace("@ROOT@", pr.root)]
+                rc, out, err = pr.run(argv, env={"VERIF_COUNT": cnt}, timeout=40)
+                stats["commands"] += 1
+                runs = len(open(cnt).read().split()) if os.path.exists(cnt) else 0
+                db = sqlite3.connect("file:%s?mode=ro" % pr.path(".redo/db.sqlite3"), uri=True)
+                rows = [r[0] for r in db.execute("select name from Files where name like '%out'")]
+                db.close()
+                problems = []
+                if rc != 0:
+                    problems.append("exit %d" % rc)
+                if "panicked" in err:
+                    problems.append("a redo process aborted")
+                if runs != 1:
+                    problems.append("the script ran %d times" % runs)
+                if rows != ["sub/deep/out"]:
+                    problems.append("database records %r" % rows)
+                if pr.read("sub/deep/out") != b"built\n":
+                    problems.append("target not installed")
+                if problems:
+                    p = write_replay("C15", "twospell", dict(kind="impl-monitor", argv=argv, problems=problems, stderr=err[-1200:]))
+                    viol.append(Violation("C15", p, "`%s`: %s" % (" ".join(argv).replace(pr.root, "<root>"), "; ".join(problems))))
+                    return stats
+            finally:
+                pr.destroy()
+    return stats
+
+
 def run(ctx):
     rng = random.Random(ctx["seed"])
     thorough = ctx["tier"] == "thorough"
@@ -74,11 +190,13 @@ def run(ctx):
         l, a, b = min(diffs, key=lambda d: len(d[0]))
         p = write_replay("C15", "corr", dict(kind="model-vs-impl", layer="Paths", request=l, model=a, impl=b, count=len(diffs)))
         viol.append(Violation("C15", p, "model and implementation disagree on %d path requests (first: %s)" % (len(diffs), l), no_input=True))
+    sym = symlink_level(ctx, rng, viol) if not viol else {}
+    prc = process_level(ctx, rng, viol) if not viol else {}
     distinct = len(set(lines))
     nontrivial = len(set(l for l, r in zip(lines, impl) if l.split(" ", 1)[0] != "normpath" or hx(l) != r and unhx(l.split()[1]) != unhx(r)))
     return dict(evaluations=len(lines) + len(again) + len(out), distinct_nontrivial=nontrivial,
                 rule="all strings over {/ . a b} up to length %d, plus seeded random multi-component paths (unicode, spaces, dots); non-trivial = the function changes its input (normpath) or any abspath/relpath request; distinct by request text" % maxlen,
                 samples=[dict(request=lines[i], model=m[i], impl=impl[i]) for i in (5, 300, n_norm + 3, off + 7)],
                 exhaustive=False, disagreements_checked=len(lines), distinct_requests=distinct,
-                distribution=dict(normpath=n_norm, abspath=len(pairs), relpath=len(rel)),
+                distribution=dict(normpath=n_norm, abspath=len(pairs), relpath=len(rel), symlink_tree=sym, two_spellings=prc),
                 explanation="exhaustive over the small alphabet up to the stated length; random beyond")
